@@ -119,6 +119,11 @@ UNINIT = Opaque("uninit")
 UNIT = Agg(())
 
 
+def is_tainted(v):
+    """host-time taint marker (determinism rule)"""
+    return isinstance(v, Opaque) and v.tag == "time"
+
+
 def bool_int(b):
     return Int((b,))
 
@@ -202,6 +207,8 @@ class Interp:
         self.arr_blocks = {}   # (name, idx-vector) -> block of variables
         self.const_pool = {}
         self.log_arr = False
+        self._region_first = False
+        self.block_hooks = {}
         self._st = None
         self.merging = True
         self.no_merge_ranks = bv.decode_ranks
@@ -243,6 +250,10 @@ class Interp:
                     v = unwrap_ref(v)   # deref of a Box
                 if isinstance(v, Ref):
                     root, path = v.root, v.path
+                elif isinstance(v, Opaque) and v.tag in ("str", "strvec"):
+                    # an abstract string stands for the reference to it as well
+                    root, path = ("tmpval", st.count("tmpval")), ()
+                    st.mem[root] = v
                 elif isinstance(v, Opaque):
                     root, path = ("opaque", v.tag), ()
                 else:
@@ -503,6 +514,8 @@ class Interp:
             return Ref(root, path)
         if k == "cast":
             v = self.operand(st, fr, r["o"])
+            if is_tainted(v):
+                return v
             ck = r["ck"]
             if ck == "IntToInt":
                 src_t = self.operand_ty(r["o"])
@@ -574,6 +587,10 @@ class Interp:
         return Opaque("rvalue:" + k)
 
     def binop(self, st, op, a, b, ta, tb):
+        if is_tainted(a) or is_tainted(b):
+            if op in ("AddWithOverflow", "SubWithOverflow", "MulWithOverflow"):
+                return Agg((Opaque("time"), Opaque("time")))
+            return Opaque("time")
         if not (isinstance(a, Int) and isinstance(b, Int)):
             # a pointer derived from a live reference is never null
             for p_, q_ in ((a, b), (b, a)):
@@ -878,6 +895,30 @@ class Interp:
         self.stats["paths"] = len(outs)
         return outs
 
+    def run_from(self, body_key, start_bb, locals_, init_mem, stop_bb=None, pc=1, ctr=None):
+        """Analyse a region of one body: start at block start_bb with the given locals
+        ({index: value}); a trace that (re-)enters stop_bb ends with outcome 'stop'."""
+        st = State()
+        st.mem = dict(init_mem)
+        st.pc = pc
+        if ctr:
+            st.ctr = dict(ctr)
+        body = self.f.bodies[body_key]
+        self.outcomes = []
+        self.fid_counter += 1
+        fid = self.fid_counter
+        fr = Frame(body, fid, start_bb, None, None)
+        for i, v in locals_.items():
+            st.mem[("f", fid, i)] = v
+        st.frames.append(fr)
+        self._region_first = (stop_bb is not None and start_bb == stop_bb)
+        for s2 in self.run_region(st, 1, stop_bb):
+            self.emit(Outcome("stop", s2, None, {"bb": stop_bb}))
+        outs = self.outcomes
+        self.outcomes = []
+        self.stats["paths"] = len(outs)
+        return outs
+
     def emit(self, out):
         self.outcomes.append(out)
         if len(self.outcomes) > self.max_paths:
@@ -910,8 +951,19 @@ class Interp:
                 return []
             fr = st.frames[-1]
             if stop_bb is not None and len(st.frames) == depth and fr.bb == stop_bb:
-                return [st]
+                if self._region_first:
+                    self._region_first = False   # the region starts at its own stop block
+                else:
+                    return [st]
             blk = fr.body["blocks"][fr.bb]
+            if self.block_hooks:
+                hk = self.block_hooks.get((fr.body["key"], fr.bb))
+                if hk is not None and len(st.frames) == 1:
+                    n = st.count(("visit", fr.bb))
+                    act = hk(self, st, fr, n)
+                    if act == "stop":
+                        self.emit(Outcome("stop", st, None, {"bb": fr.bb, "visit": n}))
+                        return []
             try:
                 for s in blk["st"]:
                     if s["k"] == "assign":
@@ -945,7 +997,7 @@ class Interp:
                     tid = self.operand_ty(t["o"])
                     bits = self.as_bits(v, tid)
                     if bits is None:
-                        st.tag("opaque-switch")
+                        st.tag("time-branch" if is_tainted(v) else "opaque-switch")
                         targets = sorted(set([bb for _, bb in t["targets"]] + [t["otherwise"]]))
                         feas = [(bb, st.pc) for bb in targets]
                     else:
@@ -1076,7 +1128,10 @@ class Interp:
         if model is None:
             model = self.find_pattern_model(cal)
         if model is not None:
-            return self._dispatch_outcomes(st, model(self, st, fr, t, args), dest, target, fr, t)
+            r_ = model(self, st, fr, t, args)
+            if isinstance(r_, Opaque) and r_.tag != "time" and any(is_tainted(a) or (isinstance(a, Ref) and a.root[0] == "f" and is_tainted(st.mem.get(a.root))) for a in args):
+                r_ = Opaque("time")
+            return self._dispatch_outcomes(st, r_, dest, target, fr, t)
         # unknown callee: opaque result
         key = cal.get("full") or path or "<indirect>"
         self.unknown_callees[key] = self.unknown_callees.get(key, 0) + 1
